@@ -242,25 +242,7 @@ def check(ctx):
                        "a spelling of `and` binds looser than a spelling of `or` (levels %s vs %s)" % (sorted(set(ands)), sorted(set(ors))))
 
     # ---------------- R4 -----------------------------------------------------------------------
-    fn = ctx.py.func(SEL, "RangeCondition.ast")
-    s = src(fn).replace(" ", "")
-    ok = "left=self._from.ast()" in s and "ops=[ast.LtE(),ast.LtE()]" in s and "comparators=[self._field.ast(),self._to.ast()]" in s
-    ctx.decide(ok, "C12-R4", fn, SEL, "RangeCondition.ast", "low <= field <= high", "", "RangeCondition does not build `low <= field <= high`: %s" % src(fn.body[-1])[:120])
-    fn0 = ctx.py.func(SEL, "RangeCondition.__init__")
-    s0 = src(fn0).replace(" ", "")
-    ok = "self._field,self._from,self._to=(tokens[0],tokens[1],tokens[3])" in s0 or "self._field,self._from,self._to=tokens[0],tokens[1],tokens[3]" in s0
-    ctx.decide(ok, "C12-R4", fn0, SEL, "RangeCondition.__init__", "field, low, high = tokens[0], tokens[1], tokens[3]", "", "range tokens are bound in another order")
-    fn = ctx.py.func(SEL, "InListCondition.ast")
-    ifs = [n for n in walk_no_nested(fn) if isinstance(n, ast.If)]
-    ok = False
-    if ifs and dotted(ifs[0].test) == "self.implicit_equality":
-        a, b = src(ifs[0].body[0]).replace(" ", ""), src(ifs[0].orelse[0] if len(ifs[0].orelse) == 1 else ast.Module(body=ifs[0].orelse, type_ignores=[])).replace(" ", "")
-        ok = "ops=[ast.Eq()]" in a and "left=self._field.ast()" in a and "ops=[ast.In()]" in b and "left=self._field.ast()" in b and "ast.List(" in b
-    ctx.decide(ok, "C12-R4", fn, SEL, "InListCondition.ast", "field == x | field in [..]", "", "implicit equality / list membership AST shape changed")
-    fn0 = ctx.py.func(SEL, "InListCondition.__init__")
-    s0 = src(fn0).replace(" ", "")
-    ok = "iflen(tokens)==2:" in s0 and "self.implicit_equality=True" in s0 and "self.compare_to=tokens[1:]" in s0
-    ctx.decide(ok, "C12-R4", fn0, SEL, "InListCondition.__init__", "one literal -> equality, several -> list", "", "token-count dispatch of InListCondition changed")
+    _r4_by_evaluation(ctx)
 
     # ---------------- R5 -----------------------------------------------------------------------
     sel = ctx.py.func(TOP, "Topology.select")
@@ -507,3 +489,97 @@ def _r8_infix_by_evaluation(ctx):
         ctx.decide(not pr, "C12-R8", astf, SEL, "BinaryInfixOperand.ast", "every operand of a chain enters the AST, in order (BoolOp.values / Compare.left + comparators)", "", "; ".join(pr)[:400])
     except TUnsupported as e:
         ctx.undecided("C12-R8", astf, SEL, "BinaryInfixOperand.ast", "generated node", "not evaluable: %s" % e)
+
+
+def _r4_by_evaluation(ctx):
+    """RangeCondition / InListCondition: __init__ and ast() evaluated (sa/tensym.py) on model tokens; the Python AST node that comes out is
+    compared, field by field, with the meaning of the construct: `field low to high` -> low <= field <= high; `field v` -> field == v;
+    `field v1 v2 ..` -> field in [v1, v2, ..]; a keyword without a value is refused."""
+    from ..tensym import TenSym, Obj, Raised
+    from ..pysym import Unsupported as PUnsupported
+
+    def tok(name, kind="Keyword"):
+        node = Obj(tag="ast of " + name)
+        return Obj(tag=name, _isa=(kind,), ast=lambda: node, node=node)
+
+    def node_models():
+        def mk(kind, fields):
+            def f(ev, call):
+                vals = {}
+                for k_, a_ in zip(fields, call.args):
+                    vals[k_] = ev.ex(a_)
+                for k in call.keywords:
+                    vals[k.arg] = ev.ex(k.value)
+                return Obj(tag=kind, kind=kind, **vals)
+            return f
+        m = {"ast.Compare": mk("Compare", ("left", "ops", "comparators")), "ast.List": mk("List", ("elts", "ctx")), "ast.Tuple": mk("Tuple", ("elts", "ctx")),
+             "_check_n_tokens": lambda ev, call: None}
+        for op in ("Eq", "NotEq", "In", "NotIn", "LtE", "Lt", "GtE", "Gt", "Load"):
+            m["ast." + op] = mk(op, ())
+        return m
+
+    def build(cls, tokens):
+        init = ctx.py.func(SEL, cls + ".__init__")
+        astf = ctx.py.func(SEL, cls + ".ast")
+        me = Obj(tag=cls)
+        ts = TenSym(models=node_models())
+        ts.run_fn(init, self=me, tokens=[list(tokens)])
+        ts2 = TenSym(models=node_models())
+        return ts2.run_fn(astf, self=me)
+
+    def kinds(xs):
+        return [getattr(x, "kind", None) for x in xs] if isinstance(xs, (list, tuple)) else None
+
+    def show(n):
+        if isinstance(n, Obj) and hasattr(n, "kind"):
+            if n.kind == "Compare":
+                return "Compare(left=%s, ops=%s, comparators=%s)" % (show(getattr(n, "left", None)), kinds(getattr(n, "ops", None)), [show(x) for x in (getattr(n, "comparators", None) or [])])
+            if n.kind in ("List", "Tuple"):
+                return "%s(%s)" % (n.kind, [show(x) for x in (getattr(n, "elts", None) or [])])
+            return n.kind
+        return getattr(n, "tag", repr(n))
+    # ---- range
+    f_, lo, hi = tok("field"), tok("low", "Literal"), tok("high", "Literal")
+    fn = ctx.py.func(SEL, "RangeCondition.ast")
+    try:
+        n = build("RangeCondition", [f_, lo, "to", hi])
+        ok = getattr(n, "kind", None) == "Compare" and getattr(n, "left", None) is lo.node and kinds(getattr(n, "ops", None)) == ["LtE", "LtE"] and \
+            isinstance(getattr(n, "comparators", None), list) and len(n.comparators) == 2 and n.comparators[0] is f_.node and n.comparators[1] is hi.node
+        ctx.decide(ok, "C12-R4", fn, SEL, "RangeCondition.ast", "`field low to high` -> low <= field <= high", "", "the node built is %s" % show(n))
+    except PUnsupported as e:
+        ctx.undecided("C12-R4", fn, SEL, "RangeCondition.ast", "`field low to high` -> low <= field <= high", "not evaluable: %s" % e)
+    try:
+        build("RangeCondition", [tok("lit", "Literal"), lo, "to", hi])
+        ctx.violated("C12-R4", fn, SEL, "RangeCondition.__init__", "a literal cannot be range-tested", "`'x' 1 to 5` is accepted")
+    except Raised as e:
+        ctx.holds("C12-R4", fn, SEL, "RangeCondition.__init__", "a literal cannot be range-tested", "raises %s" % e.exc[:40])
+    except PUnsupported as e:
+        ctx.undecided("C12-R4", fn, SEL, "RangeCondition.__init__", "a literal cannot be range-tested", "not evaluable: %s" % e)
+    # ---- implicit equality / list
+    fn = ctx.py.func(SEL, "InListCondition.ast")
+    fn0 = ctx.py.func(SEL, "InListCondition.__init__")
+    v = [tok("v%d" % k, "Literal") for k in range(3)]
+    try:
+        n = build("InListCondition", [f_, v[0]])
+        ok = getattr(n, "kind", None) == "Compare" and getattr(n, "left", None) is f_.node and kinds(getattr(n, "ops", None)) == ["Eq"] and \
+            isinstance(getattr(n, "comparators", None), list) and len(n.comparators) == 1 and n.comparators[0] is v[0].node
+        ctx.decide(ok, "C12-R4", fn, SEL, "InListCondition.ast", "`field v` -> field == v", "", "the node built is %s" % show(n))
+    except PUnsupported as e:
+        ctx.undecided("C12-R4", fn, SEL, "InListCondition.ast", "`field v` -> field == v", "not evaluable: %s" % e)
+    for k in (2, 3):
+        try:
+            n = build("InListCondition", [f_] + v[:k])
+            cmp_ = getattr(n, "comparators", None)
+            ok = getattr(n, "kind", None) == "Compare" and getattr(n, "left", None) is f_.node and kinds(getattr(n, "ops", None)) == ["In"] and isinstance(cmp_, list) and len(cmp_) == 1 and \
+                getattr(cmp_[0], "kind", None) in ("List", "Tuple") and isinstance(getattr(cmp_[0], "elts", None), list) and len(cmp_[0].elts) == k and all(x is y.node for x, y in zip(cmp_[0].elts, v)) and \
+                getattr(getattr(cmp_[0], "ctx", None), "kind", None) == "Load"
+            ctx.decide(ok, "C12-R4", fn, SEL, "InListCondition.ast", "`field v1 .. v%d` -> field in [v1, .., v%d]" % (k, k), "", "the node built is %s" % show(n))
+        except PUnsupported as e:
+            ctx.undecided("C12-R4", fn, SEL, "InListCondition.ast", "`field v1 .. v%d` -> field in [..]" % k, "not evaluable: %s" % e)
+    try:
+        build("InListCondition", [f_])
+        ctx.violated("C12-R4", fn0, SEL, "InListCondition.__init__", "a keyword without a value is refused", "`field` alone is accepted as an `in` condition")
+    except Raised as e:
+        ctx.holds("C12-R4", fn0, SEL, "InListCondition.__init__", "a keyword without a value is refused", "raises %s" % e.exc[:40])
+    except PUnsupported as e:
+        ctx.undecided("C12-R4", fn0, SEL, "InListCondition.__init__", "a keyword without a value is refused", "not evaluable: %s" % e)
